@@ -90,10 +90,13 @@ def values_for(bits, masks, tier, seed):
 
 
 def check_value(acc, T, v, bits, masks, names):
+    check_value_obj(acc, T, T(v), v, bits, masks, names)
+
+
+def check_value_obj(acc, T, x, v, bits, masks, names):
     ns = loader.load()
     tn = T.__name__
     case = {"harness": "value", "type": tn, "value": v}
-    x = T(v)
     for n, m in zip(names, masks):
         sh = (m & -m).bit_length() - 1
         got = getattr(x, n)
@@ -187,6 +190,24 @@ def run_unit(unit):
         acc.count("values")
         check_value(acc, T, v, bits, masks, names)
         acc.shape((tn, v))
+    # the construction idiom T(T.a | T.b | ...): every pair of fields, and all fields together
+    combos = [(a, b) for i, a in enumerate(names) for b in names[i + 1 :]] + [tuple(names)]
+    for combo in combos:
+        acc.count("evaluations")
+        try:
+            word = getattr(T, combo[0])
+            for n in combo[1:]:
+                word = word | getattr(T, n)
+            want = 0
+            for n in combo:
+                want |= masks[names.index(n)]
+            x = T(word)
+            if int(x) != want:
+                acc.violation({"clause": "or-construction", "type": tn}, {"harness": "masks", "type": tn}, f"{tn}({' | '.join(combo[:3])}...) has value {int(x):#x}, expected {want:#x}")
+            else:
+                check_value_obj(acc, T, x, want, bits, masks, names)
+        except Exception as e:  # noqa: BLE001
+            acc.violation({"clause": "or-construction-raises", "type": tn, "exc": type(e).__name__}, {"harness": "masks", "type": tn}, f"{tn}: T({' | '.join('T.' + c for c in combo[:3])}): {type(e).__name__}: {e}")
     acc.count("exhaustive_types" if exhaustive else "sampled_types")
     acc.sample({"type": tn, "bits": bits, "fields": dict(zip(names, [hex(m) for m in masks])), "values_checked": len(vals), "all_values": exhaustive})
     return acc
